@@ -449,6 +449,19 @@ func (ft *fnTrans) envAt(h Heap, hdr *loopInfo, phiBind map[*ssa.Phi]string) *En
 	}
 	oldEnv.lookup = func(name string, e *Env) (TV, bool) { return TV{}, false }
 	env.old = oldEnv
+	if hdr != nil {
+		// range-over-map loop: the Next instruction sits in the header block
+		for _, ins := range hdr.header.Instrs {
+			if nx, ok := ins.(*ssa.Next); ok {
+				if r, ok := nx.Iter.(*ssa.Range); ok {
+					if _, isMap := r.X.Type().Underlying().(*types.Map); isMap {
+						comp := ft.rangeComp(r)
+						env.seenOf = func(e *Env, key string) string { return sel(ft.vc.get(e.heap, comp), key) }
+					}
+				}
+			}
+		}
+	}
 	env.lookup = func(name string, e *Env) (TV, bool) {
 		if hdr != nil {
 			if name == "_n" || (strings.HasPrefix(name, "_n") && len(name) > 2 && name[2] >= '0' && name[2] <= '9') {
